@@ -9,6 +9,20 @@ import vcheck as V
 from vcheck import Job
 
 DISK = "./cache/disk"
+GRID = "./verifdrv/grid"
+CONFIGS = ["zstd/go", "zstd/cgo", "uncompressed/go", "uncompressed/cgo"]
+
+
+def grid_jobs(ctx, test, configs, shards, budget, extra_env=None, prop=None):
+    b = ctx.bin(GRID)
+    jobs = []
+    for cfg in configs:
+        for sh in range(shards):
+            env = {"VERIF_PARAM_CONFIG": cfg, "VERIF_SHARD": "%d/%d" % (sh, shards), "VERIF_BUDGET_S": str(budget), "GOMAXPROCS": "4"}
+            env.update(extra_env or {})
+            jobs.append(Job(b, test, name="%s:%s#%d" % (test, cfg, sh), timeout=budget + 120, env=env))
+    return jobs
+
 
 E1_SCENARIOS_QUICK = [
     "S1-put-get-get", "S2-ac-overwrite", "S3-evict-vs-read", "S4-corrupt-get-get",
@@ -128,10 +142,26 @@ def check_C05(ctx):
                 assumptions=E2_ASSUME)
 
 
-CHECKS = {"C03": check_C03, "C04": check_C04, "C05": check_C05, "C07": check_C07}
+def check_C01(ctx):
+    th = ctx.thorough()
+    jobs = grid_jobs(ctx, "TestC01", CONFIGS, 13 if th else 4, 2400 if th else 200)
+    return dict(level="exploration", jobs=jobs,
+                rule="full product storage mode x zstd implementation x 13 write paths x sizes on block/chunk edges x content kind x corruption kind (data, declared size, declared hash, framing, compressor, abort), each cell with fresh digests through the real HTTP/gRPC handlers; non-trivial = distinct (path, corruption, size, content) cells that were accepted or rejected with the post-conditions checked",
+                assumptions=["in-process servers (httptest recorder / bufconn), the same handlers main() wires up",
+                             "blob contents are deterministic pseudo-random or mostly-zero bytes selected by VERIF_SEED; the enumerated grid does not depend on the seed",
+                             "FetchBlob origins are loopback httptest servers"])
+
+
+CHECKS = {"C01": check_C01, "C03": check_C03, "C04": check_C04, "C05": check_C05, "C07": check_C07}
 
 # per-property manifest metadata
 META = {
+    "C01": dict(
+        category="exploration", engine="E4 grid",
+        text="Bounded-exhaustive grid over the real handlers: every one of the 13 CAS write paths (HTTP PUT plain/zstd, BatchUpdateBlobs identity/zstd, ByteStream blobs/ and compressed-blobs/zstd, SpliceBlob with/without digest, blobs inlined in UpdateActionResult as file contents/stdout/stderr, FetchBlob with/without checksum.sri) x {zstd,uncompressed} storage x {go,cgo} zstd x sizes 1, 4 KiB and 1 MiB edges, multi-chunk x every corruption kind (bit flips, truncation, extension, wrong size/hash, malformed hash, unsupported compressor, zstd garbage/cut/trailing/extra frame, aborted stream). Oracle: acknowledged <=> well formed; acknowledged => reported present by FindMissingBlobs and HEAD and read back identically; rejected => error status, claimed digest absent, no file under a hash the payload does not have; accounting/directory invariants after each path.",
+        note="Finite grid (small-scope): sizes are boundary-chosen, contents are pseudo-random or mostly zero; client aborts are cancelled contexts / failing body readers.",
+        technique="exhaustive enumeration of a finite input/configuration grid through the real entry points against an acceptance oracle",
+        design_ref="DESIGN.md 2.5, 3 (C01)"),
     "C03": dict(
         category="model_checking", engine="E2 seqx + E1 vsched",
         text="Explicit-state search: BFS over all operation sequences (depth 4 quick / 6 thorough at LRU level over add/get/reserve/unreserve/remove/remover-step with block-edge sizes; depth 3 / 4 at cache level over good and failing uploads, lookups, overwrites and backend fetches) with every transition executed on the real code, the accounting equation, reserved==0 and Stats()==index checked in every state; plus every <=2/3-preemption schedule of three concurrent scenarios with the equation checked at every scheduling point.",
